@@ -75,6 +75,17 @@ def oracle(ds, cfg, rec, gate_reason, S_full):
     est, X, Xn = rec["est"], ds["X"], ds["Xn"]
     k = cfg["k"]
     y1d = cfg["y1d"]
+    # the retained eigenvalues are squared norms: singular_values_ = sqrt(S) must be finite and
+    # explained_variance_ = S / (n - 1) non-negative, also for masked components / k above the rank
+    # (Base/MExp.v's fmaxabs skips NaN entries, so the Coq-side comparison does not see a NaN)
+    for nm in ("singular_values_", "explained_variance_", "pxt_", "ptx_", "pty_", "pxy_"):
+        if not np.all(np.isfinite(np.asarray(getattr(est, nm), dtype=float))):
+            return "%s is not finite (%s)" % (nm, np.array2string(np.asarray(getattr(est, nm), dtype=float).ravel()[:6], precision=3))
+    if np.any(np.asarray(est.explained_variance_) < 0):
+        return "explained_variance_ has a negative entry (%.3g): the retained eigenvalues are squared norms" % float(np.min(est.explained_variance_))
+    if any(not np.all(np.isfinite(o)) for o in rec["obs"]):
+        bad = [P.OUTPUT_NAMES[i] for i, o in enumerate(rec["obs"]) if not np.all(np.isfinite(o))]
+        return "non-finite outputs %s" % bad
     # 1-D / 2-D bookkeeping
     want = 1 if y1d else 2
     with warnings.catch_warnings():
@@ -227,6 +238,8 @@ def run(ctx):
     fitctl_stats, fitctl_agree = X.run_fitctl(ctx, report)
     for what, robj, found in hist_reports:
         report(ctx, what, robj, found_input=found)
+    # extension (round 4): fit_transform against fit().transform() and the model's transform
+    ft_stats = X.run_fit_transform(ctx, report)
     # verdicts
     dev_max = [0.0] * len(P.OUTPUT_NAMES)
     res_max = [0.0] * len(P.RESIDUAL_NAMES)
@@ -294,7 +307,7 @@ def run(ctx):
                    "numpy eigh/svd/lstsq answers are accepted as oracle hints only after their hypotheses' residuals are checked on the float side (eps %g)" % P.EPS_HYP,
                    "layer-D model coq/Model/PCovRFit.v of fit's control flow and shapes: tied by the exact family fitctl (error kind recognised by message; sklearn's coef_ shape is an oracle contract checked per run)"],
                evaluations=len(cases) + fitctl_stats["cases"], distinct_nontrivial=nontrivial,
-               fitctl=fitctl_stats, refit=refit_stats,
+               fitctl=fitctl_stats, refit=refit_stats, fit_transform=ft_stats,
                rule="centred/offset X of families %s, every k, both spaces; non-trivial = distinct fit compared inside Coq with mixing > 0 and k < numeric rank of the modified matrix (solvers full/arpack/randomized/auto); the fitctl configurations are counted in evaluations only" % ",".join(P.FAMILIES),
                traces_validated_against_impl=agree + fitctl_agree,
                samples=[dict(case=case_replay(cases[i][0], cases[i][1]), report=reports[i]) for i in sample_ids],
@@ -308,6 +321,10 @@ def run(ctx):
 
 def replay(ctx, obj):
     c = obj["case"]
+    if "fit_transform" in c:
+        msg = X.replay_fit_transform(c["fit_transform"])
+        print("replay:", msg or "property holds on this input now")
+        return 1 if msg else 0
     if "refit" in c:
         msg = X.replay_refit(c["refit"])
         print("replay:", msg or "property holds on this input now")
